@@ -56,6 +56,11 @@ type vfResp struct {
 	fwdOK   bool
 	fwdRec  vfM
 	done    chan struct{}
+	// an application write that is held inside the downstream writer ("wpark" ... "wrelease")
+	parkHdr    *rtp.Header
+	parkRec    vfM
+	appParked  chan struct{}
+	appRelease chan struct{}
 }
 
 func (r *vfResp) hook(name string, obj any) {
@@ -99,6 +104,17 @@ func (r *vfResp) hook(name string, obj any) {
 // downstream writer of every bound stream
 func (r *vfResp) write(h *rtp.Header, pl []byte, _ interceptor.Attributes) (int, error) {
 	r.mu.Lock()
+	if h == r.parkHdr && r.parkHdr != nil { // the application's packet has reached the transport: hold its Write call here
+		r.parkRec = vfPkt(h, pl)
+		r.mu.Unlock()
+		r.appParked <- struct{}{}
+		select {
+		case <-r.appRelease:
+		case <-r.done:
+		}
+
+		return len(pl), nil
+	}
 	if h == r.curHdr { // the application's own packet being forwarded inside its Write call
 		r.fwdOK = true
 		r.fwdRec = vfPkt(h, pl)
@@ -168,7 +184,32 @@ func vfRunResp(t *testing.T, sc *vfRespScript, out *vfWriter) { //nolint:gocogni
 	if err != nil {
 		t.Fatalf("VERIF-INFRA NewInterceptor(size %d): %v", sc.Size, err)
 	}
-	r := &vfResp{t: t, byObj: map[any]*vfJob{}, arrive: make(chan *vfJob), done: make(chan struct{})}
+	r := &vfResp{t: t, byObj: map[any]*vfJob{}, arrive: make(chan *vfJob), done: make(chan struct{}),
+		appParked: make(chan struct{}, 1), appRelease: make(chan struct{})}
+	var parkDone chan error // non-nil while an application write is parked
+	var parkPl []byte
+	var parkH *rtp.Header
+	releaseParked := func() {
+		if parkDone == nil {
+			return
+		}
+		r.appRelease <- struct{}{}
+		var werr error
+		select {
+		case werr = <-parkDone:
+		case <-time.After(10 * time.Second):
+			t.Fatalf("VERIF-FAIL a Write released from the transport did not return within 10s")
+		}
+		r.mu.Lock()
+		r.parkHdr = nil
+		r.mu.Unlock()
+		for i := range parkPl {
+			parkPl[i] = 0xEE
+		}
+		parkH.SequenceNumber, parkH.Timestamp, parkH.SSRC = 0xDEAD, 0x7EADBEEF, 0x6EEEEEEE
+		parkDone = nil
+		out.Emit(vfM{"a": "wrelease", "ok": werr == nil})
+	}
 	verifhook.SetGate(r.hook)
 	defer verifhook.SetGate(nil)
 
@@ -224,15 +265,51 @@ func vfRunResp(t *testing.T, sc *vfRespScript, out *vfWriter) { //nolint:gocogni
 			if b == nil {
 				continue
 			}
+			releaseParked()
 			ic.UnbindLocalStream(b.info)
 			delete(streams, st.S)
 			out.Emit(vfM{"a": "unbind", "s": st.S})
 		case "close":
+			releaseParked()
 			if err := ic.Close(); err != nil {
 				t.Fatalf("VERIF-FAIL Close returned %v", err)
 			}
 			streams = map[uint32]*bound{}
 			out.Emit(vfM{"a": "close"})
+		case "wrelease":
+			releaseParked()
+		case "wpark":
+			// the same as "write", but the call is held inside the transport's writer (the packet is on the wire, the
+			// Write has not returned) until "wrelease": NACKs answered in between must already find the packet
+			b := streams[st.S]
+			if b == nil || parkDone != nil {
+				continue
+			}
+			h, pl := vfMakePacket(st.S, st.W, st.ID, st.Len, st.Shape)
+			rec := vfPkt(h, pl)
+			r.mu.Lock()
+			r.parkHdr, r.parkRec = h, nil
+			r.mu.Unlock()
+			done := make(chan error, 1)
+			go func() {
+				_, werr := b.writer.Write(h, pl, interceptor.Attributes{})
+				done <- werr
+			}()
+			select {
+			case <-r.appParked:
+				parkDone, parkPl, parkH = done, pl, h
+				r.mu.Lock()
+				fwd := jsonEq(r.parkRec, rec)
+				r.mu.Unlock()
+				out.Emit(vfM{"a": "write", "s": st.S, "w": st.W, "id": st.ID, "ok": true, "fwd": fwd, "pkt": rec})
+			case werr := <-done: // refused before it reached the transport
+				r.mu.Lock()
+				r.parkHdr = nil
+				r.mu.Unlock()
+				out.Emit(vfM{"a": "write", "s": st.S, "w": st.W, "id": st.ID, "ok": werr == nil, "fwd": false, "pkt": rec})
+			case <-time.After(10 * time.Second):
+				t.Fatalf("VERIF-FAIL a Write neither reached the transport nor returned within 10s")
+			}
 		case "write":
 			b := streams[st.S]
 			if b == nil {
@@ -294,6 +371,7 @@ func vfRunResp(t *testing.T, sc *vfRespScript, out *vfWriter) { //nolint:gocogni
 		}
 	}
 	// drain: run every resend goroutine to completion, one step at a time
+	releaseParked()
 	for _, id := range order {
 		j := jobs[id]
 		for j.state != "done" {
